@@ -379,10 +379,42 @@ def posterior_case(ctx, rng, idx):
     n_chains = int(rng.integers(2, 5))
     n_draws = int(rng.integers(3, 41))
     ids = ['ind %d' % i for i in range(int(rng.integers(1, 5)))]
-    ds = _posterior_dataset(rng, names, n_chains, n_draws, ids)
+    # the posterior variable that feeds model parameter p is var_names[p]
+    # (its values encode p); the map may rename, exchange or shift names, so
+    # that the posterior name of one parameter is the model name of another
+    map_kind = ['none', 'rename', 'exchange', 'shift', 'none'][idx % 5]
+    var_names = list(names)
+    if map_kind == 'rename':
+        for j in rng.permutation(len(names))[:int(rng.integers(
+                1, len(names) + 1))]:
+            var_names[j] = 'posterior of ' + names[j]
+    elif map_kind == 'exchange':
+        perm = rng.permutation(len(names))
+        var_names = [names[j] for j in perm]
+    elif map_kind == 'shift':
+        k = int(rng.integers(2, len(names) + 1))
+        sel = list(rng.permutation(len(names))[:k])
+        for a, b in zip(sel[:-1], sel[1:]):
+            var_names[a] = names[b]
+        var_names[sel[-1]] = 'fresh name'
+    items = [(names[j], var_names[j]) for j in range(len(names))
+             if var_names[j] != names[j]]
+    if map_kind != 'none' and rng.random() < 0.3:
+        items.append(('not a model parameter', 'anything'))
+    param_map = dict(items[j] for j in rng.permutation(len(items)))
+    ds = _posterior_dataset(rng, var_names, n_chains, n_draws, ids)
     # shuffle the variable order of the dataset
-    ds = ds[[names[i] for i in rng.permutation(len(names))]]
-    ppm = chi.PosteriorPredictiveModel(pm, ds)
+    ds = ds[[var_names[i] for i in rng.permutation(len(names))]]
+    try:
+        ppm = chi.PosteriorPredictiveModel(pm, ds, param_map) \
+            if param_map or rng.random() < 0.5 else \
+            chi.PosteriorPredictiveModel(pm, ds)
+    except Exception as e:      # noqa
+        ctx.violation_exc('construction_raises', e,
+                          {'param_map': param_map, 'names': names},
+                          {'family': 'posterior', 'map': map_kind})
+        return
+    ctx.count('param_map_' + map_kind)
     who = ids[int(rng.integers(len(ids)))]
     arg = who if rng.random() < 0.8 else None
     if arg is None:
@@ -393,9 +425,10 @@ def posterior_case(ctx, rng, idx):
     seed = int(rng.integers(1, 2 ** 31))
     feats = {'family': 'posterior', 'n_chains': n_chains,
              'n_draws': n_draws, 'n_individuals': len(ids),
-             'individual': arg, 'n_samples': n}
-    ctx.case(('posterior', n_chains, min(n_draws, 8), len(ids), arg is None),
-             True, sample=feats)
+             'individual': arg, 'n_samples': n, 'map': map_kind,
+             'param_map': param_map}
+    ctx.case(('posterior', n_chains, min(n_draws, 8), len(ids), arg is None,
+              map_kind), True, sample=feats)
     try:
         df, calls = _tap(lambda: ppm.sample(times, n_samples=n,
                                             individual=arg, seed=seed))
